@@ -14,6 +14,10 @@ import (
 func init() { generators = append(generators, genSignals) }
 
 func genSignals(repo string, root *pkg) {
+	runGen("genSignals", []string{"Signals"}, func() { genSignalsImpl(repo, root) })
+}
+
+func genSignalsImpl(repo string, root *pkg) {
 	var b bytes.Buffer
 	b.WriteString("namespace LA.Gen.Signals\n")
 	var items []string
